@@ -25,6 +25,14 @@ func compPath(sc *absScenario, v ssa.Value) string {
 		if !ok || u.Op != token.MUL {
 			break
 		}
+		if al, isAlloc := u.X.(*ssa.Alloc); isAlloc {
+			// a local that lives in memory (captured by a closure): follow its only store
+			if v := singleStoreInto(al); v != nil {
+				cur = v
+				continue
+			}
+			break
+		}
 		fa, ok := u.X.(*ssa.FieldAddr)
 		if !ok {
 			break
@@ -263,41 +271,73 @@ func transformerLookupOrderRule(p *Prog, r *Report, id string) {
 		g, ok := u.X.(*ssa.Global)
 		return ok && g.Name() == "DefaultTransformers"
 	}
-	var custom []*ssa.Lookup
-	var deflt []*ssa.Lookup
-	allInstrs(sf, true, func(in ssa.Instruction) {
-		l, ok := in.(*ssa.Lookup)
-		if !ok {
-			return
-		}
-		switch {
-		case isDefault(l.X):
-			deflt = append(deflt, l)
-		case loadsField(l.X, "EnumTransformers"):
-			custom = append(custom, l)
-		}
-	})
 	site := "config.parseTransformer/registered before built-in"
-	if len(custom) == 0 || len(deflt) == 0 {
-		r.Bad(site, p.PosStr(fi.Decl.Pos()), fmt.Sprintf("%d lookups in ctx.EnumTransformers, %d in enum.DefaultTransformers: one of the two transformer tables is no longer consulted", len(custom), len(deflt)))
-		return
-	}
-	for _, dl := range deflt {
-		ok := false
+	guardedBy := func(b *ssa.BasicBlock, custom []*ssa.Lookup) bool {
 		for _, cl := range custom {
 			if !cl.CommaOk {
 				continue
 			}
-			if dominatedByEdge(dl.Block(), false, func(cond ssa.Value) bool {
+			if dominatedByEdge(b, false, func(cond ssa.Value) bool {
 				ex, isEx := cond.(*ssa.Extract)
 				return isEx && ex.Tuple == cl && ex.Index == 1
 			}) {
-				ok = true
+				return true
 			}
 		}
-		if !ok {
-			r.Bad(site, p.PosStr(dl.Pos()), "enum.DefaultTransformers is consulted without a failed lookup in ctx.EnumTransformers before it: a transformer the program registered under a built-in name is replaced by the built-in one")
-			return
+		return false
+	}
+	type lk struct {
+		custom, deflt []*ssa.Lookup
+	}
+	per := map[*ssa.Function]*lk{}
+	nc, nd := 0, 0
+	region := p.Region("config.parseTransformer")
+	for _, rf := range region {
+		h := p.SSAFunc(rf)
+		if h == nil {
+			continue
+		}
+		e := &lk{}
+		per[h] = e
+		allInstrs(h, false, func(in ssa.Instruction) {
+			l, ok := in.(*ssa.Lookup)
+			if !ok {
+				return
+			}
+			switch {
+			case isDefault(l.X):
+				e.deflt = append(e.deflt, l)
+				nd++
+			case loadsField(l.X, "EnumTransformers"):
+				e.custom = append(e.custom, l)
+				nc++
+			}
+		})
+	}
+	_ = sf
+	if nc == 0 || nd == 0 {
+		r.Bad(site, p.PosStr(fi.Decl.Pos()), fmt.Sprintf("%d lookups in ctx.EnumTransformers, %d in enum.DefaultTransformers: one of the two transformer tables is no longer consulted", nc, nd))
+		return
+	}
+	for h, e := range per {
+		for _, dl := range e.deflt {
+			if guardedBy(dl.Block(), e.custom) {
+				continue
+			}
+			// the fallback lives in a helper of its own: every call of it must sit on the not-found branch
+			okCalls, calls := true, 0
+			for g, ge := range per {
+				for _, c := range callsIn(g, false, func(o *types.Func) bool { return h.Object() != nil && o == h.Object() }) {
+					calls++
+					if !guardedBy(c.(ssa.Instruction).Block(), ge.custom) {
+						okCalls = false
+					}
+				}
+			}
+			if calls == 0 || !okCalls {
+				r.Bad(site, p.PosStr(dl.Pos()), "enum.DefaultTransformers is consulted without a failed lookup in ctx.EnumTransformers before it: a transformer the program registered under a built-in name is replaced by the built-in one")
+				return
+			}
 		}
 	}
 	r.OK(site, p.PosStr(fi.Decl.Pos()), "the built-in table is the fallback")
@@ -538,9 +578,20 @@ func contextNamesAlwaysConsultedRule(p *Prog, r *Report, id string) {
 	}
 	// helpers that always consult the table before answering false
 	consults := map[*ssa.Function]bool{}
+	var helpers []*ssa.Function
+	names := map[*ssa.Function]string{}
 	for _, rf := range p.Region("method.Parse") {
-		h := p.SSAFunc(rf)
-		if h == nil || h == sf || len(h.Blocks) == 0 {
+		if h := p.SSAFunc(rf); h != nil && h != sf {
+			helpers = append(helpers, h)
+			names[h] = rf.Name()
+		}
+	}
+	for _, af := range sf.AnonFuncs {
+		helpers = append(helpers, af)
+		names[af] = af.Name()
+	}
+	for _, h := range helpers {
+		if len(h.Blocks) == 0 {
 			continue
 		}
 		has := false
@@ -567,7 +618,7 @@ func contextNamesAlwaysConsultedRule(p *Prog, r *Report, id string) {
 		if leak == nil {
 			consults[h] = true
 		} else {
-			r.Note("method."+rf.Name()+"/consults goverter:context names", p.PosStr(leak.Pos()), "this helper can answer without the lookup in LocalOpts.Context — it does not count as the lookup")
+			r.Note("method."+names[h]+"/consults goverter:context names", p.PosStr(leak.Pos()), "this helper can answer without the lookup in LocalOpts.Context — it does not count as the lookup")
 		}
 	}
 	consult := func(in ssa.Instruction) bool {
@@ -711,15 +762,18 @@ func variableFlagRule(p *Prog, r *Report, id string) {
 			if fi.Obj != nil && fi.Lit == nil {
 				name = fi.Obj.Name()
 			}
+			prm, isPrm := st.Val.(*ssa.Parameter)
 			switch {
 			case fresh && isConst && c.Value != nil && ((name == "VariableID" && c.Value.String() == "true") || c.Value.String() == "false"):
 				r.OK(site, p.PosStr(in.Pos()), "constructor literal")
+			case fresh && isPrm && fi.Obj != nil && !fi.Obj.Exported() && variableCallersOK(p, sf, prm):
+				r.OK(site, p.PosStr(in.Pos()), "private constructor: every caller passes a constant, true only from VariableID")
 			default:
 				r.Bad(site, p.PosStr(in.Pos()), "JenID.Variable is written outside the constructors VariableID/OtherID (value "+st.Val.String()+"): an expression that is not a fresh local — e.g. a dereferenced source pointer — becomes addressable, and JenID.Pointer returns &(expr): the target then points into the source")
 			}
 		})
 	}
-	if n < 2 {
+	if n < 1 {
 		r.Unresolved("constructor stores of JenID.Variable")
 	}
 }
@@ -921,4 +975,73 @@ func basicZeroUntypedRule(p *Prog, r *Report, id string) {
 	} else {
 		r.OK(site, p.PosStr(fi.Decl.Pos()), fmt.Sprintf("%d type renderings, all of composite types", n))
 	}
+}
+
+// singleStoreInto returns the value of the only store into the cell, or nil.
+func singleStoreInto(al *ssa.Alloc) ssa.Value {
+	var val ssa.Value
+	n := 0
+	if al.Referrers() == nil {
+		return nil
+	}
+	for _, ref := range *al.Referrers() {
+		if st, ok := ref.(*ssa.Store); ok && st.Addr == ssa.Value(al) {
+			n++
+			val = st.Val
+		}
+	}
+	if n == 1 {
+		return val
+	}
+	return nil
+}
+
+// variableCallersOK: every call of the private constructor fn passes a constant for prm — true only inside VariableID.
+func variableCallersOK(p *Prog, fn *ssa.Function, prm *ssa.Parameter) bool {
+	idx := -1
+	for i, q := range fn.Params {
+		if q == prm {
+			idx = i
+		}
+	}
+	if idx < 0 {
+		return false
+	}
+	calls := 0
+	ok := true
+	for _, fi := range p.Funcs {
+		g := p.SSAFunc(fi)
+		if g == nil || !p.IsOwnPath(fi.Pkg.PkgPath) {
+			continue
+		}
+		allInstrs(g, true, func(in ssa.Instruction) {
+			// any use of the constructor as a value (not a direct call) defeats the audit
+			c, isCall := in.(ssa.CallInstruction)
+			if !isCall || c.Common().StaticCallee() != fn {
+				for _, op := range in.Operands(nil) {
+					if op != nil && *op == ssa.Value(fn) {
+						if !isCall {
+							ok = false
+						}
+					}
+				}
+				return
+			}
+			calls++
+			args := c.Common().Args
+			if idx >= len(args) {
+				ok = false
+				return
+			}
+			k, isK := args[idx].(*ssa.Const)
+			if !isK || k.Value == nil {
+				ok = false
+				return
+			}
+			if k.Value.String() == "true" && !(fi.Lit == nil && fi.Obj != nil && fi.Obj.Name() == "VariableID") {
+				ok = false
+			}
+		})
+	}
+	return ok && calls > 0
 }
